@@ -1018,16 +1018,20 @@ def fmt_trace(trace):
 TIMING_OPS = ["exec", "iter", "setdur", "on_enable", ("engage", None, False), ("done",), ("on_disable",)]
 
 
-def run_check(pid, tier, seed, shapes, nops, maxdev, bfs_depth, rule_extra="", probe_every=0, sig_names=(), timing_depth=0):
+def run_check(pid, tier, seed, shapes, nops, maxdev, bfs_depth, rule_extra="", probe_every=0, sig_names=(), timing_depth=0, light_names=(), light_nops=3, light_bfs=5):
     t0 = time.time()
     items = []
     bfs = []
+    light = set(light_names)
     for sh in shapes:
         less = 1 if sh["name"] in sig_names else 0  # the call adapter is history independent
+        if sh["name"] in light:  # the large generated family gets a shallower flat pass; BFS depths stay
+            less = max(less, nops - light_nops)
         nroot = len(op_menu(sh, False, False))
+        md = min(maxdev, 1) if sh["name"] in light else maxdev
         for r in range(nroot):
-            items.append(dict(shape=sh, nops=nops - less, maxdev=maxdev, roots=[(r,)], props=[pid], seed=seed))
-        bfs.append((sh, bfs_depth - 2 * less))
+            items.append(dict(shape=sh, nops=nops - less, maxdev=md, roots=[(r,)], props=[pid], seed=seed))
+        bfs.append((sh, (bfs_depth - 2 * less) if sh["name"] not in light else light_bfs))
     res = core.Result()
     with core.WorkerPool() as pool:
         for d in pool.run("mc.sm_engine", "explore_shape", items, seed=seed, weight=lambda it: it["nops"]):
@@ -1036,7 +1040,7 @@ def run_check(pid, tier, seed, shapes, nops, maxdev, bfs_depth, rule_extra="", p
         if timing_depth:
             tshapes = [(sh, timing_depth) for sh in shapes if any(st["kind"] == "timed" for st in sh["states"]) and sh["name"] not in sig_names]
             bfs_all(pool, res, tshapes, pid, seed, 0, opset=TIMING_OPS, maxdev=0, label="timing_bfs")
-    res.bounds.update(flat_ops=nops, flat_deviation_bound=maxdev, bfs_depth=bfs_depth, shapes=len(shapes), tick="1/64 s", advances=list(ADVANCES))
+    res.bounds.update(flat_ops=nops, flat_deviation_bound=maxdev, bfs_depth=bfs_depth, shapes=len(shapes), tick="1/64 s", advances=list(ADVANCES), timing_bfs_depth=timing_depth, generated_family_shapes=len(light), family_flat_ops=light_nops if light else None, family_flat_deviation_bound=1 if light else None, family_bfs_depth=light_bfs if light else None)
     rule = (
         "for each generated machine shape: every sequence of `flat_ops` external operations (engage variants, done, on_disable, "
         "duration-topic edits, execute after a clock advance of 0/1/2/3/long ticks) with at most `flat_deviation_bound` non-trivial in-state "
